@@ -1,3 +1,62 @@
+    pub mod listener {
+        use vstd::prelude::*;
+        use crate::maybe_async::MaybeAsync;
+        // the declaration is /repo's; the ghost log records every notification, in order (C13)
+        pub trait Listener<T> {
+            spec fn log(&self) -> Seq<T>;
+//@fn rodbus/src/client/listener.rs | trait Listener::update | tags=C13 | nobody
+//@|    ensures final(self).log() == old(self).log().push(_value),
+        }
+//@item rodbus/src/client/listener.rs | ClientState | derive=Copy,Clone
+//@item rodbus/src/client/listener.rs | PortState | derive=Copy,Clone
+
+        // ---- C13: the legal connection life-cycle, as an automaton over the states the listener observes ----
+        pub open spec fn legal_step(a: ClientState, b: ClientState) -> bool {
+            match a {
+                ClientState::Disabled => b is Connecting || b is Shutdown,
+                // Connected only directly after Connecting; a wait state after a failed connect; Disabled after a disable
+                ClientState::Connecting => b is Connected || b is WaitAfterFailedConnect || b is Disabled || b is Shutdown,
+                ClientState::Connected => b is WaitAfterDisconnect || b is Disabled || b is Shutdown,
+                ClientState::WaitAfterFailedConnect(_) => b is Connecting || b is Disabled || b is Shutdown,
+                ClientState::WaitAfterDisconnect(_) => b is Connecting || b is Disabled || b is Shutdown,
+                ClientState::Shutdown => false,     // Shutdown is last
+            }
+        }
+        pub open spec fn legal(log: Seq<ClientState>) -> bool {
+            (log.len() > 0 ==> log[0] is Disabled)              // Disabled first
+            && forall|i: int| 0 <= i < log.len() - 1 ==> legal_step(#[trigger] log[i], log[i + 1])
+        }
+        pub proof fn lemma_legal_push(log: Seq<ClientState>, s: ClientState)
+            requires legal(log), log.len() > 0 ==> legal_step(log.last(), s), log.len() == 0 ==> s is Disabled,
+            ensures legal(log.push(s)),
+        {
+            let l2 = log.push(s);
+            assert forall|i: int| 0 <= i < l2.len() - 1 implies legal_step(#[trigger] l2[i], l2[i + 1]) by {
+                if i < log.len() - 1 { assert(l2[i] == log[i] && l2[i + 1] == log[i + 1]); }
+            }
+        }
+        pub open spec fn port_step(a: PortState, b: PortState) -> bool {
+            match a {
+                PortState::Disabled => b is Open || b is Wait || b is Shutdown,
+                PortState::Open => b is Wait || b is Disabled || b is Shutdown,
+                PortState::Wait(_) => b is Open || b is Wait || b is Disabled || b is Shutdown,
+                PortState::Shutdown => false,
+            }
+        }
+        pub open spec fn port_legal(log: Seq<PortState>) -> bool {
+            (log.len() > 0 ==> log[0] is Disabled)
+            && forall|i: int| 0 <= i < log.len() - 1 ==> port_step(#[trigger] log[i], log[i + 1])
+        }
+        pub proof fn lemma_port_legal_push(log: Seq<PortState>, s: PortState)
+            requires port_legal(log), log.len() > 0 ==> port_step(log.last(), s), log.len() == 0 ==> s is Disabled,
+            ensures port_legal(log.push(s)),
+        {
+            let l2 = log.push(s);
+            assert forall|i: int| 0 <= i < l2.len() - 1 implies port_step(#[trigger] l2[i], l2[i + 1]) by {
+                if i < log.len() - 1 { assert(l2[i] == log[i] && l2[i + 1] == log[i + 1]); }
+            }
+        }
+    }
     pub mod message {
         use vstd::prelude::*;
         use crate::common::function::FunctionCode;
